@@ -2,7 +2,7 @@
     estimate.  Property theorems only. *)
 From Coq Require Import ZArith List Bool.
 From PV Require Import Model.Base Model.Sched Model.Seq.
-From PV Require Gen.PureLoops Proofs.PureLoopsEq.
+From PV Require Gen.PureLoops Gen.PureSlot Proofs.PureLoopsEq Proofs.PureSlotEq.
 From PV Require Import Proofs.SchedInv Proofs.DurationSpec Proofs.ConflictSpec Proofs.AlignWitness.
 Import ListNotations.
 Open Scope Z_scope.
@@ -114,3 +114,22 @@ Theorem C03_source_find_add_delay :
     Gen.PureLoops.gen_find_add_delay chs t0 n tg wfa = find_add_delay n tg wfa t0 chs.
 Proof. exact PureLoopsEq.find_add_delay_eq. Qed.
 Print Assumptions C03_source_find_add_delay.
+
+(** Tie to the source by translation: where a pulse is scheduled.  In every state
+    in which the channel exists and has a last slot, the model's
+    [make_next_pulse_slot] returns exactly the slot (start, end, phase of the
+    scheduled pulse) or the error computed by the function REGENERATED from the
+    current source of _Schedule.make_next_pulse_slot (barriers, conflict scan,
+    phase-jump buffer, rounding of the inserted wait, duration check, drift-corrected
+    phase). *)
+Theorem C03_source_make_next_pulse_slot :
+  forall (e : env) (p : pulse) (n : Z) (barriers : list Z) (proto : Z)
+         (dp : option drift) (block : bool) (s : sched) (last : slot) (c : chan),
+    last_slot n s = (s, Ok last) ->
+    the_chan n s = (s, Ok c) ->
+    make_next_pulse_slot e p n barriers proto dp block s =
+    (s, PureSlotEq.slot_of e n p dp last
+          (Gen.PureSlot.gen_make_next_pulse_slot s c last n barriers
+             (negb (negb (proto =? 1))) (proto =? 2) dp (p_phase p) (p_dur p) (en_max e) block)).
+Proof. exact PureSlotEq.make_next_pulse_slot_eq. Qed.
+Print Assumptions C03_source_make_next_pulse_slot.
